@@ -237,10 +237,22 @@ pub fn eval_pick(ctx: &mut Ctx, spec: &str, msg: &[u8]) {
     let case = || Case::new("cat_pick").with("list", spec).bytes("msg", msg);
     let Some(l) = base_list(spec) else { return ctx.harness_error("bad list") };
     let order: Vec<SymbolSize> = l.iter().collect();
-    let res = guard(|| datamatrix::DataMatrixBuilder::new().with_symbol_list(l).with_macros(false).encode(msg).map(|dm| (dm.size, dm.data_codewords().to_vec())));
+    // the pick is promised for every entry point that takes a list: builder, DataMatrix::encode, encode_gs1 (one more
+    // codeword in front)
+    let entry = (hash64(msg) ^ hash64(spec.as_bytes())) % 4;
+    let gs1 = entry == 3 && !msg.is_empty();
+    let res = guard(|| {
+        (match entry {
+            0 | 1 => datamatrix::DataMatrixBuilder::new().with_symbol_list(l).with_macros(false).encode(msg),
+            2 if !msg.starts_with(b"[)>") => datamatrix::DataMatrix::encode(msg, l),
+            3 if gs1 => datamatrix::DataMatrix::encode_gs1(msg, l),
+            _ => datamatrix::DataMatrixBuilder::new().with_symbol_list(l).with_macros(false).encode(msg),
+        })
+        .map(|dm| (dm.size, dm.data_codewords().to_vec()))
+    });
     // a pure digit message needs exactly ceil(n/2) codewords (digit pairs cannot be beaten): then the expectation
     // does not depend on the encoder's own stream at all
-    let digits_need = if !msg.is_empty() && msg.iter().all(|b| b.is_ascii_digit()) { Some((msg.len() + 1) / 2) } else { None };
+    let digits_need = if !msg.is_empty() && msg.iter().all(|b| b.is_ascii_digit()) { Some((msg.len() + 1) / 2 + gs1 as usize) } else { None };
     if let Some(need) = digits_need {
         let first = order.iter().map(|s| cat::row_of(*s).data).filter(|c| *c >= need).min();
         match &res {
